@@ -54,58 +54,26 @@ example : probe goodFat32 true = .ok
 
 /-! ## 1. totality
 
-`mount_total` (never `.panic`) is FALSE of the code (finding F7): three `u32` computations of the mount path wrap.
-It is proved under the hypothesis that these three do not wrap, evaluated on the raw bytes by the independent parse. -/
+Holds at full strength since the repair of F7 (`fix: boot sector validation no longer overflows on huge FAT
+sizes`): the region sum is checked in `u64` before any `u32` arithmetic, the FAT capacity is computed in `u64`. -/
 
-/-- the three computations of `FileSystem::new` that can exceed `u32`:
-    `fats * sectors_per_fat`, `reserved + fats*sectors_per_fat + root_dir_sectors`,
-    `sectors_per_fat * bytes_per_sector * 8` -/
-def NoWrap (b : List Nat) : Prop :=
-  numFATs b * fatSz b < 2 ^ 32 ∧ metaSectors b < 2 ^ 32 ∧ fatSz b * bytsPerSec b * 8 < 2 ^ 32
-
-instance (b : List Nat) : Decidable (NoWrap b) := by unfold NoWrap; exact inferInstance
-
-theorem noWrap_model {b : List Nat} (h : NoWrap b) : (Bpb.deserialize b).NoWrap := by
-  obtain ⟨h1, h2, h3⟩ := h
-  rw [numFATs_eq, fatSz_eq] at h1
-  rw [metaSectors_eq] at h2
-  rw [fatSz_eq, bytsPerSec_eq] at h3
-  exact ⟨h1, h2, h3⟩
-
-/-- C07.1 (partial): whatever the 512 bytes are, strict or not, parsing + validating + deriving the geometry never
-    panics — provided the three products/sums do not wrap. -/
-theorem mount_total_partial {b : List Nat} (hb : IsSector b) (hw : NoWrap b) (strict : Bool) :
-    probe b strict ≠ .error .panic := by
+/-- C07.1: whatever the 512 bytes are, strict or not, parsing + validating + deriving the geometry never panics. -/
+theorem mount_total {b : List Nat} (hb : IsSector b) (strict : Bool) : probe b strict ≠ .error .panic := by
   intro h
-  have hm := noWrap_model hw
-  have h1 := hm.fatsXspf; have h2 := hm.regionSum; have h3 := hm.spfXbpsX8
-  rcases probe_error hb h with h | ⟨_, h | h | h⟩
-  · cases h
-  · omega
-  · unfold Bpb.fdsNat at h; omega
-  · omega
+  cases probe_error hb h
 
-/-- … and a panic, when it happens, is exactly one of the three wraps; every other failure is
-    `CorruptedFileSystem` -/
-theorem mount_error_classes {b : List Nat} (hb : IsSector b) {strict : Bool} {e : Err}
-    (h : probe b strict = .error e) : e = .corrupted ∨ (e = .panic ∧ ¬ NoWrap b) := by
-  rcases probe_error hb h with h | ⟨he, h⟩
-  · exact Or.inl h
-  · refine Or.inr ⟨he, ?_⟩
-    rintro ⟨h1, h2, h3⟩
-    rw [numFATs_eq, fatSz_eq] at h1
-    rw [metaSectors_eq] at h2
-    rw [fatSz_eq, bytsPerSec_eq] at h3
-    omega
+/-- every failure of the boot-sector part of the mount is `CorruptedFileSystem` -/
+theorem mount_error_corrupted {b : List Nat} (hb : IsSector b) {strict : Bool} {e : Err}
+    (h : probe b strict = .error e) : e = .corrupted := probe_error hb h
 
-/-- the whole of `FileSystem::new` (boot sector + FS-info sector) under the same hypothesis -/
-theorem mount_total_partial_full {bs fi : List Nat} (hb : IsSector bs) (hw : NoWrap bs) (strict : Bool) :
+/-- C07.1 for the whole of `FileSystem::new` (boot sector + FS-info sector; any FS-info bytes) -/
+theorem mount_total_full {bs fi : List Nat} (hb : IsSector bs) (strict : Bool) :
     mountGeometry bs fi strict ≠ .error .panic := by
   intro h
   unfold mountGeometry at h
   rw [ebind_eq_error] at h
   rcases h with h | ⟨g, hg, h⟩
-  · exact mount_total_partial hb hw strict h
+  · exact mount_total hb strict h
   obtain ⟨hv, rfl⟩ := probe_ok hb hg
   have hr := Bpb.deserialize_inRange hb
   rw [ebind_eq_error] at h
@@ -113,12 +81,8 @@ theorem mount_total_partial_full {bs fi : List Nat} (hb : IsSector bs) (hw : NoW
   · -- reading the FS-info sector: a `u64` product of two `u16`s, then signature checks
     unfold readFsInfo at h
     split at h
-    · have h1 := hr.bps; have h2 := hr.fsInfo
-      have : (Bpb.deserialize bs).fsInfoSector * (Bpb.deserialize bs).bytesPerSector < 65536 * 65536 :=
-        Nat.mul_lt_mul'' h2 h1
-      rw [show (BootSector.deserialize bs).bpb = Bpb.deserialize bs from rfl] at h
-      unfold Bpb.bytesFromSectors at h
-      rw [u64Mul_of_lt (by omega), ebind_ok] at h
+    · rw [show (BootSector.deserialize bs).bpb = Bpb.deserialize bs from rfl,
+        bytesFromSectors_total hr (by have := hr.fsInfo; omega), ebind_ok] at h
       unfold FsInfo.deserialize at h
       repeat' split at h
       all_goals cases h
@@ -132,65 +96,55 @@ theorem mount_total_partial_full {bs fi : List Nat} (hb : IsSector bs) (hw : NoW
       cases h
     · cases h
 
-example : IsSector goodFat32 ∧ NoWrap goodFat32 := by decide +kernel
+example : IsSector goodFat32 ∧ IsSector goodFat16 := by decide +kernel
 
-/-- F7, first witness of DESIGN §7: 255 FATs of 0x02000000 sectors — `fats * sectors_per_fat` overflows -/
-theorem mount_panics_counterexample_fats :
-    IsSector (bootSector32 512 1 8 255 69632 0x02000000 0 2 1 6) ∧
-    probe (bootSector32 512 1 8 255 69632 0x02000000 0 2 1 6) true = .error .panic := by decide +kernel
+/-! Regression: the former F7 witnesses (`mount_panics_counterexample_*`) are now rejected with
+`CorruptedFileSystem`, and the coherent big volumes that used to panic now mount. -/
 
-/-- F7, second witness of DESIGN §7: `sectors_per_fat_32 = 0xFFFFFFFF` (2 FATs) -/
-theorem mount_panics_counterexample_spf_max :
-    probe (bootSector32 512 1 8 2 69632 0xFFFFFFFF 0 2 1 6) true = .error .panic := by decide +kernel
+/-- 255 FATs of 0x02000000 sectors; `sectors_per_fat_32 = 0xFFFFFFFF`; `= 0x80000000` (former `fats * spf` wraps) -/
+example :
+    probe (bootSector32 512 1 8 255 69632 0x02000000 0 2 1 6) true = .error .corrupted ∧
+    probe (bootSector32 512 1 8 2 69632 0xFFFFFFFF 0 2 1 6) true = .error .corrupted ∧
+    probe (bootSector32 512 1 8 2 69632 0x80000000 0 2 1 6) true = .error .corrupted := by decide +kernel
 
-/-- F7: the smallest `sectors_per_fat_32` that overflows `fats * sectors_per_fat` with the usual 2 FATs is 2^31 … -/
-theorem mount_panics_counterexample_fats_min :
-    probe (bootSector32 512 1 8 2 69632 0x80000000 0 2 1 6) true = .error .panic := by decide +kernel
-
-/-- … and just below it the product fits but the region sum `reserved + fat_sectors` overflows:
-    from `0x7FFFFFFC` (with 8 reserved sectors) up the mount panics, at `0x7FFFFFFB` it is a clean error -/
-theorem mount_panics_counterexample_region_sum :
-    probe (bootSector32 512 1 8 2 69632 0x7FFFFFFC 0 2 1 6) true = .error .panic ∧
+/-- former region-sum wraps -/
+example :
+    probe (bootSector32 512 1 8 2 69632 0x7FFFFFFC 0 2 1 6) true = .error .corrupted ∧
     probe (bootSector32 512 1 8 2 69632 0x7FFFFFFB 0 2 1 6) true = .error .corrupted ∧
-    probe (bootSector32 512 1 8 1 69632 0xFFFFFFF8 0 2 1 6) true = .error .panic := by decide +kernel
+    probe (bootSector32 512 1 8 1 69632 0xFFFFFFF8 0 2 1 6) true = .error .corrupted := by decide +kernel
 
-/-- F7, third site, on a volume that is COHERENT and correctly sized: 513 GiB, 4 KiB clusters, 2 FATs of 2^20
-    sectors (exactly enough entries for its 134 217 726 clusters). `sectors_per_fat * bytes_per_sector * 8` = 2^32
-    overflows in `validate_total_clusters`. One sector less per FAT and the same volume mounts. -/
-theorem mount_panics_counterexample_coherent :
-    IsSector (bootSector32 512 8 32 2 1075838944 1048576 0 2 1 6) ∧
-    Coherent (bootSector32 512 8 32 2 1075838944 1048576 0 2 1 6) ∧
-    probe (bootSector32 512 8 32 2 1075838944 1048576 0 2 1 6) true = .error .panic ∧
-    (probe (bootSector32 512 8 32 2 1075838944 1048575 0 2 1 6) true).toOption.map (·.totalClusters)
-      = some 134217720 := by
-  refine ⟨by decide +kernel, ?_, by decide +kernel, by decide +kernel⟩
-  intro c; cases c <;> decide +kernel
-
-/-- the same with 4096-byte sectors: FATs of 2^17 sectors (a 512 GiB volume with 4 KiB clusters) -/
-theorem mount_panics_counterexample_coherent_4k :
-    Coherent (bootSector32 4096 1 32 2 134479902 131072 0 2 1 6) ∧
-    probe (bootSector32 4096 1 32 2 134479902 131072 0 2 1 6) true = .error .panic := by
-  refine ⟨?_, by decide +kernel⟩
-  intro c; cases c <;> decide +kernel
+/-- the coherent, correctly sized 513 GiB / 512 GiB volumes (FATs of 2^20 resp. 2^17 sectors) whose
+    `sectors_per_fat * bytes_per_sector * 8` used to overflow now mount, with the geometry of the independent parse -/
+example :
+    (probe (bootSector32 512 8 32 2 1075838944 1048576 0 2 1 6) true).toOption.map
+      (fun g => (g.fatType, g.clusterSize, g.totalClusters)) = some (.fat32, 4096, 134217720) ∧
+    (probe (bootSector32 4096 1 32 2 134479902 131072 0 2 1 6) true).toOption.map
+      (fun g => (g.fatType, g.clusterSize, g.totalClusters)) = some (.fat32, 4096, 134217726) := by decide +kernel
 
 /-! ## 2. only coherent geometries are accepted
 
-FALSE of the code for two clauses: the FAT32 root cluster is never validated (F8), and the cluster-count limit is
-tested against `0x0FFFFFFF` instead of the largest count whose cluster numbers stay below the bad-cluster mark. -/
+Holds at full strength since the repair of F8 / F20 (`fix: reject FAT32 volumes with an out-of-range root directory
+cluster or more clusters than FAT32 allows`). -/
 
-/-- C07.2 (partial): an accepted boot sector satisfies every clause of `Coherent` except `rootCluster` and
-    `clusterLimit`; for the latter the weaker bound `count ≤ 0x0FFFFFFF` holds. -/
-theorem mount_accepts_coherent_partial {b : List Nat} {strict : Bool} {g : Geometry} (hb : IsSector b)
-    (h : probe b strict = .ok g) :
-    (∀ c : Clause, c ≠ .rootCluster → c ≠ .clusterLimit → c.holds b = true) ∧
-    countOfClusters b ≤ 0x0FFFFFFF := by
+/-- C07.2: an accepted boot sector satisfies every clause of `Coherent`. -/
+theorem mount_accepts_coherent {b : List Nat} {strict : Bool} {g : Geometry} (hb : IsSector b)
+    (h : probe b strict = .ok g) : Coherent b := by
   obtain ⟨hv, rfl⟩ := probe_ok hb h
   have hr := Bpb.deserialize_inRange hb
-  refine ⟨?_, by rw [countOfClusters_eq]; exact hv.limit⟩
-  intro c h1 h2
+  intro c
   cases c with
-  | rootCluster => exact absurd rfl h1
-  | clusterLimit => exact absurd rfl h2
+  | rootCluster =>
+    simp only [Clause.holds, layout32_eq]
+    cases hf : (Bpb.deserialize b).isFat32
+    · simp
+    · have := hv.rootCluster hf
+      simp [rootClus_eq b hf, countOfClusters_eq, this]
+  | clusterLimit =>
+    have := hv.limit
+    simp only [Clause.holds, layout32_eq, countOfClusters_eq]
+    cases hf : (Bpb.deserialize b).isFat32
+    · simp
+    · simp; omega
   | sectorSize =>
     simp only [Clause.holds, bytsPerSec_eq]
     rcases hv.bps with h | h | h | h <;> rw [h] <;> decide
@@ -224,25 +178,33 @@ theorem mount_accepts_coherent_partial {b : List Nat} {strict : Bool} {g : Geome
     · have := hv.backup hf
       simp [bkBootSec_eq b hf, rsvdSecCnt_eq, this]
 
-example : (probe goodFat32 false).toOption.isSome = true ∧ Coherent goodFat32 :=
-  ⟨by decide +kernel, by intro c; cases c <;> decide +kernel⟩
+/-- the same through the full mount -/
+theorem mount_accepts_coherent_full {bs fi : List Nat} {strict : Bool} {m : Mounted} (hb : IsSector bs)
+    (h : mountGeometry bs fi strict = .ok m) : Coherent bs := by
+  unfold mountGeometry at h
+  rw [ebind_eq_ok] at h
+  obtain ⟨g, hg, _⟩ := h
+  exact mount_accepts_coherent hb hg
 
-/-- F8: root cluster 0, 1, `total+2` and `0xFFFFFFFF` are all accepted (the volume has 68 552 clusters, so the
-    valid root clusters are 2 … 68 553) -/
-theorem root_cluster_counterexample :
+example : (probe goodFat32 false).toOption.isSome = true ∧ (probe goodFat16 true).toOption.isSome = true := by
+  decide +kernel
+
+/-- regression for F8: root clusters 0, 1, `total+2`, `0xFFFFFFFF` are rejected; the first and the last valid
+    root cluster (2 and 68 553 on this 68 552-cluster volume) are accepted -/
+example :
     (∀ rc ∈ [0, 1, 68554, 0xFFFFFFFF],
-      (probe (bootSector32 512 1 8 2 69632 536 0 rc 1 6) true).toOption.map (·.rootDirFirstCluster) = some rc ∧
-      Clause.rootCluster.holds (bootSector32 512 1 8 2 69632 536 0 rc 1 6) = false) := by decide +kernel
+      probe (bootSector32 512 1 8 2 69632 536 0 rc 1 6) true = .error .corrupted) ∧
+    (∀ rc ∈ [2, 68553],
+      (probe (bootSector32 512 1 8 2 69632 536 0 rc 1 6) true).toOption.map (·.rootDirFirstCluster) = some rc) := by
+  decide +kernel
 
-/-- new finding: a FAT32 volume with 0x0FFFFFFF clusters is accepted although its last cluster numbers
-    (0x0FFFFFF7 … 0x10000000) collide with the bad-cluster / end-of-chain marks or do not fit 28 bits;
-    `validate_total_clusters` compares with `0x0FFFFFFF`, not with `FAT32_MAX_CLUSTERS` -/
-theorem cluster_limit_counterexample :
-    (probe (bootSector32 512 1 8 2 268436535 536 0 2 1 6) true).toOption.map (·.totalClusters) = some 0x0FFFFFFF ∧
-    Clause.clusterLimit.holds (bootSector32 512 1 8 2 268436535 536 0 2 1 6) = false ∧
-    (probe (bootSector32 512 1 8 2 268436526 536 0 2 1 6) true).toOption.map (·.totalClusters) = some 0x0FFFFFF6 ∧
-    Clause.clusterLimit.holds (bootSector32 512 1 8 2 268436526 536 0 2 1 6) = false ∧
-    Clause.clusterLimit.holds (bootSector32 512 1 8 2 268436525 536 0 2 1 6) = true := by decide +kernel
+/-- regression for F20: 0x0FFFFFFF and 0x0FFFFFF5 clusters are rejected, `FAT32_MAX_CLUSTERS` = 0x0FFFFFF4 is the
+    largest accepted count -/
+example :
+    probe (bootSector32 512 1 8 2 268436535 536 0 2 1 6) true = .error .corrupted ∧
+    probe (bootSector32 512 1 8 2 268436525 536 0 2 1 6) true = .error .corrupted ∧
+    (probe (bootSector32 512 1 8 2 268436524 536 0 2 1 6) true).toOption.map (·.totalClusters)
+      = some 0x0FFFFFF4 := by decide +kernel
 
 /-! ## 3. the accepted geometry is the independently parsed one -/
 
@@ -345,7 +307,8 @@ example : offsetFromCluster (Bpb.deserialize goodFat32) 1080 68553 = .ok ((1080 
   decide +kernel
 
 /-- `FatEntriesFit`: the FAT has an entry for every cluster — the condition `validate_total_clusters` merely
-    *warns* about; an accepted volume need not satisfy it (`fat_too_small_accepted`) -/
+    *warns* about; an accepted volume need not satisfy it (`fat_too_small_accepted`). It is not a clause of C07's
+    `Coherent`: reads/writes of entries beyond the FAT are clipped by `DiskSlice`, not misdirected. -/
 def FatEntriesFit (g : Geometry) : Prop :=
   g.totalClusters + 2 ≤ g.sectorsPerFat * g.bytesPerSector * 8 / g.fatType.bits
 
@@ -417,6 +380,41 @@ example : IsSector goodFat16 ∧
       (fun g => (g.fatType, g.totalClusters, g.firstDataSector, g.rootDirSectors)) = some (.fat16, 8167, 97, 32) ∧
     rootDirSlice (Bpb.deserialize goodFat16) 97 32 = .ok { sBegin := 65 * 512, size := 32 * 512, mirrors := 1 } := by
   decide +kernel
+
+/-! ## 6. no arithmetic of an accepted volume can overflow
+
+After mounting, the library keeps calling the `u32`/`u64` getters of the BPB (`first_data_sector()`,
+`total_clusters()`, `bytes_from_sectors`, `sector_from_cluster`, …). None of them can panic on an accepted volume. -/
+
+/-- every BPB getter is total on an accepted volume and returns the unbounded-arithmetic value -/
+theorem accepted_arith_total {b : List Nat} {strict : Bool} {g : Geometry} (hb : IsSector b)
+    (h : probe b strict = .ok g) :
+    (Bpb.deserialize b).rootDirSectors = .ok g.rootDirSectors ∧
+    (Bpb.deserialize b).sectorsPerAllFats = .ok (g.fats * g.sectorsPerFat) ∧
+    (Bpb.deserialize b).firstDataSector = .ok g.firstDataSector ∧
+    (Bpb.deserialize b).totalClusters = .ok g.totalClusters ∧
+    (Bpb.deserialize b).clusterSize = .ok g.clusterSize ∧
+    (∀ s, s < 2 ^ 32 → (Bpb.deserialize b).bytesFromSectors s = .ok (s * g.bytesPerSector)) ∧
+    (∀ k, k ≤ g.totalClusters →
+      (Bpb.deserialize b).sectorsFromClusters k = .ok (k * (Bpb.deserialize b).sectorsPerCluster) ∧
+      bytesFromClusters (Bpb.deserialize b) k = .ok (k * (Bpb.deserialize b).sectorsPerCluster * g.bytesPerSector)) ∧
+    (∀ c, 2 ≤ c → c < g.totalClusters + 2 →
+      sectorFromCluster (Bpb.deserialize b) g.firstDataSector c =
+        .ok (g.firstDataSector + (c - 2) * (Bpb.deserialize b).sectorsPerCluster) ∧
+      g.firstDataSector + (c - 2) * (Bpb.deserialize b).sectorsPerCluster + (Bpb.deserialize b).sectorsPerCluster
+        ≤ g.totalSectors) ∧
+    (∀ n, n < 2 ^ 63 → ∃ k, (Bpb.deserialize b).clustersFromBytes n = .ok k) := by
+  obtain ⟨hv, rfl⟩ := probe_ok hb h
+  have hr := Bpb.deserialize_inRange hb
+  have hbps := hv.bps
+  refine ⟨Bpb.rootDirSectors_eq hr (by omega), sectorsPerAllFats_valid hv, firstDataSector_valid hr hv,
+    totalClusters_valid hr hv, Bpb.clusterSize_eq hr, fun s hs => bytesFromSectors_total hr hs,
+    fun k hk => ⟨(sectorsFromClusters_valid hr hv hk).1, bytesFromClusters_valid hr hv hk⟩,
+    fun c h2 hc => sectorFromCluster_ok hr hv h2 hc, fun n hn => ⟨_, clustersFromBytes_valid hr hv hn⟩⟩
+
+example : (Bpb.deserialize goodFat32).firstDataSector = .ok 1080 ∧
+    (Bpb.deserialize goodFat32).totalClusters = .ok 68552 ∧
+    sectorFromCluster (Bpb.deserialize goodFat32) 1080 68553 = .ok 69631 := by decide +kernel
 
 /-! ## sanity of the (de)serialisers on the witnesses -/
 
